@@ -400,6 +400,8 @@ def run(chk):
 
     from verif import fallthrough
     fallthrough.run(chk, "C04", floor=2)
+    from verif import argorder
+    argorder.run(chk, "C04", floor=45)
 
     chk.assumptions += [
         "the C03 copy-on-write rules are evaluated on every library function (a superset of what applyAction reaches)",
